@@ -79,16 +79,18 @@ def isAddOrKill : Ev → Bool
 theorem handlePiece_view (st : List Status) (q : MPeer) (chosen : Option Nat) :
     (handlePiece st q chosen).2.1.addr = q.addr ∧
     (handlePiece st q chosen).2.1.rx = rxOfReply (handlePiece st q chosen).2.2 ∧
-    (handlePiece st q chosen).2.1.choked = q.choked := by
+    (handlePiece st q chosen).2.1.choked = q.choked ∧
+    (∀ y, (handlePiece st q chosen).2.1.rx = some y → (handlePiece st q chosen).2.1.pieceIndex = some y) := by
   unfold handlePiece
   cases chosen with
-  | none => cases q.interested <;> exact ⟨rfl, rfl, rfl⟩
-  | some c => cases q.choked <;> exact ⟨rfl, rfl, rfl⟩
+  | none => cases q.interested <;> exact ⟨rfl, rfl, rfl, fun y hy => by cases hy⟩
+  | some c => cases q.choked <;> exact ⟨rfl, rfl, rfl, fun y hy => by first | exact hy | cases hy⟩
 
 /-- An event of peer `a` other than connect/disconnect keeps its record, changed as `viewAfter` says. -/
 theorem mstep_view (m m' : MState) (a : Nat) (ev : Ev) (r : Reply) (p : MPeer) (hev : evAddr ev = a)
     (hak : isAddOrKill ev = false) (hp : findPeer m a = some p) (h : mstep m ev = .ok m' r) :
-    ∃ p', findPeer m' a = some p' ∧ (p'.rx, p'.choked) = viewAfter (p.rx, p.choked) ev r := by
+    ∃ p', findPeer m' a = some p' ∧ (p'.rx, p'.choked) = viewAfter (p.rx, p.choked) ev r ∧
+      ((∀ y, p.rx = some y → p.pieceIndex = some y) → ∀ y, p'.rx = some y → p'.pieceIndex = some y) := by
   have hpa : p.addr = a := (findPeer_some hp).2
   cases ev with
   | add b n => simp [isAddOrKill] at hak
@@ -97,7 +99,7 @@ theorem mstep_view (m m' : MState) (a : Nat) (ev : Ev) (r : Reply) (p : MPeer) (
     simp only [evAddr] at hev; subst hev
     simp only [mstep, hp, Out.ok.injEq] at h
     obtain ⟨rfl, rfl⟩ := h
-    exact ⟨_, findPeer_setPeer m _ _ p _ hpa hp, rfl⟩
+    exact ⟨_, findPeer_setPeer m _ _ p _ hpa hp, rfl, by intro hidx y hy; first | exact hidx y hy | exact hy | cases hy⟩
   | unchoke b chosen =>
     simp only [evAddr] at hev; subst hev
     simp only [mstep, hp] at h
@@ -105,22 +107,22 @@ theorem mstep_view (m m' : MState) (a : Nat) (ev : Ev) (r : Reply) (p : MPeer) (
     | none =>
       simp only [Out.ok.injEq] at h
       obtain ⟨rfl, rfl⟩ := h
-      refine ⟨_, findPeer_setPeer m _ _ p _ hpa hp, ?_⟩
+      refine ⟨_, findPeer_setPeer m _ _ p _ hpa hp, ?_, by intro hidx y hy; first | exact hidx y hy | exact hy | cases hy⟩
       cases p.amInterested <;> rfl
     | some c =>
       simp only [Out.ok.injEq] at h
       obtain ⟨rfl, rfl⟩ := h
-      exact ⟨_, findPeer_setPeer m _ _ p _ hpa hp, rfl⟩
+      exact ⟨_, findPeer_setPeer m _ _ p _ hpa hp, rfl, by intro hidx y hy; first | exact hidx y hy | exact hy | cases hy⟩
   | interested b =>
     simp only [evAddr] at hev; subst hev
     simp only [mstep, hp, Out.ok.injEq] at h
     obtain ⟨rfl, rfl⟩ := h
-    exact ⟨_, findPeer_setPeer m _ _ p _ hpa hp, rfl⟩
+    exact ⟨_, findPeer_setPeer m _ _ p _ hpa hp, rfl, by intro hidx y hy; first | exact hidx y hy | exact hy | cases hy⟩
   | notInterested b chosen =>
     simp only [evAddr] at hev; subst hev
     simp only [mstep, hp, Out.ok.injEq] at h
     obtain ⟨rfl, rfl⟩ := h
-    exact ⟨_, findPeer_setPeer m _ _ p _ hpa hp, rfl⟩
+    exact ⟨_, findPeer_setPeer m _ _ p _ hpa hp, rfl, by intro hidx y hy; first | exact hidx y hy | exact hy | cases hy⟩
   | «have» b i =>
     simp only [evAddr] at hev; subst hev
     simp only [mstep, hp] at h
@@ -130,13 +132,13 @@ theorem mstep_view (m m' : MState) (a : Nat) (ev : Ev) (r : Reply) (p : MPeer) (
       · split at h
         · simp only [Out.ok.injEq] at h
           obtain ⟨rfl, rfl⟩ := h
-          exact ⟨_, findPeer_setPeer m _ _ p _ hpa hp, rfl⟩
+          exact ⟨_, findPeer_setPeer m _ _ p _ hpa hp, rfl, by intro hidx y hy; first | exact hidx y hy | exact hy | cases hy⟩
         · simp only [Out.ok.injEq] at h
           obtain ⟨rfl, rfl⟩ := h
-          exact ⟨_, findPeer_setPeer m _ _ p _ hpa hp, rfl⟩
+          exact ⟨_, findPeer_setPeer m _ _ p _ hpa hp, rfl, by intro hidx y hy; first | exact hidx y hy | exact hy | cases hy⟩
       · simp only [Out.ok.injEq] at h
         obtain ⟨rfl, rfl⟩ := h
-        exact ⟨_, findPeer_setPeer m _ _ p _ hpa hp, rfl⟩
+        exact ⟨_, findPeer_setPeer m _ _ p _ hpa hp, rfl, by intro hidx y hy; first | exact hidx y hy | exact hy | cases hy⟩
   | bitfield b bits chosen =>
     simp only [evAddr] at hev; subst hev
     simp only [mstep, hp] at h
@@ -144,7 +146,7 @@ theorem mstep_view (m m' : MState) (a : Nat) (ev : Ev) (r : Reply) (p : MPeer) (
     · cases h
     · simp only [Out.ok.injEq] at h
       obtain ⟨rfl, rfl⟩ := h
-      exact ⟨_, findPeer_setPeer m _ _ p _ hpa hp, rfl⟩
+      exact ⟨_, findPeer_setPeer m _ _ p _ hpa hp, rfl, by intro hidx y hy; first | exact hidx y hy | exact hy | cases hy⟩
   | pieceDone b chosen =>
     simp only [evAddr] at hev; subst hev
     simp only [mstep, hp] at h
@@ -153,9 +155,9 @@ theorem mstep_view (m m' : MState) (a : Nat) (ev : Ev) (r : Reply) (p : MPeer) (
     | some y =>
       simp only [hpi, Out.ok.injEq] at h
       obtain ⟨rfl, rfl⟩ := h
-      obtain ⟨h1, h2, h3⟩ := handlePiece_view (modifyAt m.statuses y (fun _ => .have)) { p with rx := none } chosen
-      simp only [hpi] at h1 h2 h3
-      refine ⟨_, findPeer_setPeer m _ _ p _ (by rw [h1]; exact hpa) hp, ?_⟩
+      obtain ⟨h1, h2, h3, h4⟩ := handlePiece_view (modifyAt m.statuses y (fun _ => .have)) { p with rx := none } chosen
+      simp only [hpi] at h1 h2 h3 h4
+      refine ⟨_, findPeer_setPeer m _ _ p _ (by rw [h1]; exact hpa) hp, ?_, fun _ => h4⟩
       simp only [viewAfter, h2, h3]
   | pieceCancel b chosen =>
     simp only [evAddr] at hev; subst hev
@@ -165,9 +167,9 @@ theorem mstep_view (m m' : MState) (a : Nat) (ev : Ev) (r : Reply) (p : MPeer) (
     | some y =>
       simp only [hpi, Out.ok.injEq] at h
       obtain ⟨rfl, rfl⟩ := h
-      obtain ⟨h1, h2, h3⟩ := handlePiece_view (modifyAt m.statuses y decr) { p with rx := none } chosen
-      simp only [hpi] at h1 h2 h3
-      refine ⟨_, findPeer_setPeer m _ _ p _ (by rw [h1]; exact hpa) hp, ?_⟩
+      obtain ⟨h1, h2, h3, h4⟩ := handlePiece_view (modifyAt m.statuses y decr) { p with rx := none } chosen
+      simp only [hpi] at h1 h2 h3 h4
+      refine ⟨_, findPeer_setPeer m _ _ p _ (by rw [h1]; exact hpa) hp, ?_, fun _ => h4⟩
       simp only [viewAfter, h2, h3]
 
 theorem find_filter_other (ps : List MPeer) (a b : Nat) (hab : b ≠ a) :
@@ -725,9 +727,10 @@ theorem hstep_end (sha1 : Bytes → Bytes) (disk : Bytes → Option Bytes) (t : 
 /-! ### The link is kept -/
 
 theorem linked_of_view (a : Nat) (m' : MState) (t' : HState) (v : View) (p' : MPeer)
-    (hp : findPeer m' a = some p') (h1 : (p'.rx, p'.choked) = v) (h2 : hview t' = v) : Linked a m' t' := by
+    (hp : findPeer m' a = some p') (h1 : (p'.rx, p'.choked) = v) (h2 : hview t' = v)
+    (h3 : ∀ y, p'.rx = some y → p'.pieceIndex = some y) : Linked a m' t' := by
   intro _
-  refine ⟨p', hp, ?_, ?_⟩
+  refine ⟨p', hp, ?_, ?_, h3⟩
   · have := congrArg Prod.fst (h2.trans h1.symm); exact this
   · have := congrArg Prod.snd (h2.trans h1.symm); exact this
 
@@ -749,7 +752,7 @@ theorem linked_step (T : Torrent) (sha1 : Bytes → Bytes) (disk : Bytes → Opt
       intro c; rw [this] at c; cases c
     | none =>
       obtain ⟨hv, hlen, _⟩ := hstep_view sha1 disk t hal inp t' outs hh
-      obtain ⟨p, hp, hrx, hch⟩ := hl hal
+      obtain ⟨p, hp, hrx, hch, hidx⟩ := hl hal
       have hvt : hview t = (p.rx, p.choked) := by simp [hview, hrx, hch]
       simp only [afterEnd]
       cases hc : cmdsOf outs with
@@ -757,7 +760,7 @@ theorem linked_step (T : Torrent) (sha1 : Bytes → Bytes) (disk : Bytes → Opt
         rw [hc] at hH hv
         simp only [Handled] at hH
         rw [hH]
-        exact linked_of_view a m t' _ p hp rfl (by rw [hv, hvt]; rfl)
+        exact linked_of_view a m t' _ p hp rfl (by rw [hv, hvt]; rfl) hidx
       | cons c rest =>
         rw [hc] at hlen hv hH
         have hrest : rest = [] := by
@@ -768,56 +771,136 @@ theorem linked_step (T : Torrent) (sha1 : Bytes → Bytes) (disk : Bytes → Opt
         cases c with
         | init pid =>
           simp only [Handled] at hH; rw [hH]
-          exact linked_of_view a m t' _ p hp rfl (by rw [hv, hvt]; rfl)
+          exact linked_of_view a m t' _ p hp rfl (by rw [hv, hvt]; rfl) hidx
         | recvRequest idx =>
           simp only [Handled] at hH; rw [hH]
-          exact linked_of_view a m t' _ p hp rfl (by rw [hv, hvt]; rfl)
+          exact linked_of_view a m t' _ p hp rfl (by rw [hv, hvt]; rfl) hidx
         | recvChoke =>
           simp only [Handled] at hH
-          obtain ⟨p', hp', hv'⟩ := mstep_view m m1 a _ _ p rfl rfl hp hH
-          exact linked_of_view a m1 t' _ p' hp' hv' (by rw [hv, hvt]; rfl)
+          obtain ⟨p', hp', hv', hi'⟩ := mstep_view m m1 a _ _ p rfl rfl hp hH
+          exact linked_of_view a m1 t' _ p' hp' hv' (by rw [hv, hvt]; rfl) (hi' hidx)
         | recvInterested =>
           simp only [Handled] at hH
-          obtain ⟨p', hp', hv'⟩ := mstep_view m m1 a _ _ p rfl rfl hp hH
-          exact linked_of_view a m1 t' _ p' hp' hv' (by rw [hv, hvt]; rfl)
+          obtain ⟨p', hp', hv', hi'⟩ := mstep_view m m1 a _ _ p rfl rfl hp hH
+          exact linked_of_view a m1 t' _ p' hp' hv' (by rw [hv, hvt]; rfl) (hi' hidx)
         | recvUnchoke =>
           simp only [Handled] at hH
           obtain ⟨chosen, r, hm, hr⟩ := hH
-          obtain ⟨p', hp', hv'⟩ := mstep_view m m1 a _ _ p rfl rfl hp hm
-          exact linked_of_view a m1 t' _ p' hp' hv' (by rw [hv, hvt, hr]; simp [taskAfter, viewAfter, rxOfRep_repOf])
+          obtain ⟨p', hp', hv', hi'⟩ := mstep_view m m1 a _ _ p rfl rfl hp hm
+          exact linked_of_view a m1 t' _ p' hp' hv' (by rw [hv, hvt, hr]; simp [taskAfter, viewAfter, rxOfRep_repOf]) (hi' hidx)
         | recvNotInterested =>
           simp only [Handled] at hH
           obtain ⟨chosen, r, hm, hr⟩ := hH
-          obtain ⟨p', hp', hv'⟩ := mstep_view m m1 a _ _ p rfl rfl hp hm
-          exact linked_of_view a m1 t' _ p' hp' hv' (by rw [hv, hvt]; rfl)
+          obtain ⟨p', hp', hv', hi'⟩ := mstep_view m m1 a _ _ p rfl rfl hp hm
+          exact linked_of_view a m1 t' _ p' hp' hv' (by rw [hv, hvt]; rfl) (hi' hidx)
         | recvHave i =>
           simp only [Handled] at hH
           obtain ⟨r, hm, hr⟩ := hH
-          obtain ⟨p', hp', hv'⟩ := mstep_view m m1 a _ _ p rfl rfl hp hm
-          refine linked_of_view a m1 t' _ p' hp' hv' ?_
+          obtain ⟨p', hp', hv', hi'⟩ := mstep_view m m1 a _ _ p rfl rfl hp hm
+          refine linked_of_view a m1 t' _ p' hp' hv' ?_ (hi' hidx)
           rw [hv, hvt, hr]
           cases r <;> simp [taskAfter, viewAfter, repOf]
         | recvBitfield bs =>
           simp only [Handled] at hH
           obtain ⟨bits, chosen, u, hm, hr⟩ := hH
-          obtain ⟨p', hp', hv'⟩ := mstep_view m m1 a _ _ p rfl rfl hp hm
-          exact linked_of_view a m1 t' _ p' hp' hv' (by rw [hv, hvt]; rfl)
+          obtain ⟨p', hp', hv', hi'⟩ := mstep_view m m1 a _ _ p rfl rfl hp hm
+          exact linked_of_view a m1 t' _ p' hp' hv' (by rw [hv, hvt]; rfl) (hi' hidx)
         | pieceDone =>
           simp only [Handled] at hH
           obtain ⟨chosen, r, hm, hr⟩ := hH
-          obtain ⟨p', hp', hv'⟩ := mstep_view m m1 a _ _ p rfl rfl hp hm
-          exact linked_of_view a m1 t' _ p' hp' hv' (by rw [hv, hvt, hr]; simp [taskAfter, viewAfter, rxOfRep_repOf])
+          obtain ⟨p', hp', hv', hi'⟩ := mstep_view m m1 a _ _ p rfl rfl hp hm
+          exact linked_of_view a m1 t' _ p' hp' hv' (by rw [hv, hvt, hr]; simp [taskAfter, viewAfter, rxOfRep_repOf]) (hi' hidx)
         | pieceCancel =>
           simp only [Handled] at hH
           obtain ⟨chosen, r, hm, hr⟩ := hH
-          obtain ⟨p', hp', hv'⟩ := mstep_view m m1 a _ _ p rfl rfl hp hm
-          exact linked_of_view a m1 t' _ p' hp' hv' (by rw [hv, hvt, hr]; simp [taskAfter, viewAfter, rxOfRep_repOf])
+          obtain ⟨p', hp', hv', hi'⟩ := mstep_view m m1 a _ _ p rfl rfl hp hm
+          exact linked_of_view a m1 t' _ p' hp' hv' (by rw [hv, hvt, hr]; simp [taskAfter, viewAfter, rxOfRep_repOf]) (hi' hidx)
 
 /-- **Steps of other connections keep the link**: any event of any other peer (connect, command, disconnect). -/
 theorem linked_env (a : Nat) (m m' : MState) (t : HState) (ev : Ev) (r : Reply) (hne : evAddr ev ≠ a)
     (hl : Linked a m t) (h : mstep m ev = .ok m' r) : Linked a m' t := by
   intro ha
-  obtain ⟨p, hp, h1, h2⟩ := hl ha
-  exact ⟨p, by rw [mstep_other m m' a ev r hne h]; exact hp, h1, h2⟩
+  obtain ⟨p, hp, h1, h2, h3⟩ := hl ha
+  exact ⟨p, by rw [mstep_other m m' a ev r hne h]; exact hp, h1, h2, h3⟩
+
+/-! ### Any number of connections: the link holds for every one of them in every reachable state -/
+
+theorem handled_other (T : Torrent) (a b : Nat) (m m1 : MState) (cmds : List Cmd) (rep : Rep) (hab : a ≠ b)
+    (h : Handled T a m cmds rep m1) : findPeer m1 b = findPeer m b := by
+  cases cmds with
+  | nil => simp only [Handled] at h; rw [h]
+  | cons c rest =>
+    cases rest with
+    | cons c2 r2 => cases c <;> simp [Handled] at h
+    | nil =>
+      cases c with
+      | init pid => simp only [Handled] at h; rw [h]
+      | recvRequest idx => simp only [Handled] at h; rw [h]
+      | recvChoke => simp only [Handled] at h; exact mstep_other m m1 b _ _ (by exact hab) h
+      | recvInterested => simp only [Handled] at h; exact mstep_other m m1 b _ _ (by exact hab) h
+      | recvUnchoke => simp only [Handled] at h; obtain ⟨_, _, hm, _⟩ := h; exact mstep_other m m1 b _ _ (by exact hab) hm
+      | recvNotInterested => simp only [Handled] at h; obtain ⟨_, _, hm, _⟩ := h; exact mstep_other m m1 b _ _ (by exact hab) hm
+      | recvHave i => simp only [Handled] at h; obtain ⟨_, hm, _⟩ := h; exact mstep_other m m1 b _ _ (by exact hab) hm
+      | recvBitfield bs => simp only [Handled] at h; obtain ⟨_, _, _, hm, _⟩ := h; exact mstep_other m m1 b _ _ (by exact hab) hm
+      | pieceDone => simp only [Handled] at h; obtain ⟨_, _, hm, _⟩ := h; exact mstep_other m m1 b _ _ (by exact hab) hm
+      | pieceCancel => simp only [Handled] at h; obtain ⟨_, _, hm, _⟩ := h; exact mstep_other m m1 b _ _ (by exact hab) hm
+
+theorem afterEnd_other (a b : Nat) (e : Option Bool) (m : MState) (hab : a ≠ b) :
+    findPeer (afterEnd a e m) b = findPeer m b := by
+  unfold afterEnd
+  cases e with
+  | none => rfl
+  | some x =>
+    simp only
+    cases hk : mstep m (.kill a) with
+    | ok m' r => exact mstep_other m m' b _ r (by exact hab) hk
+    | panic w => rfl
+
+theorem lstep_other (T : Torrent) (sha1 : Bytes → Bytes) (disk : Bytes → Option Bytes) (a b : Nat) (m m' : MState)
+    (t t' : HState) (inp : HIn) (outs : List HOut) (hab : a ≠ b) (h : LStepO T sha1 disk a m t inp m' t' outs) :
+    findPeer m' b = findPeer m b := by
+  obtain ⟨e, m1, _, hH, rfl⟩ := h
+  rw [afterEnd_other a b e m1 hab]
+  exact handled_other T a b m m1 _ _ hab hH
+
+def AllLinked (S : Sys) : Prop := ∀ b, Linked b S.m (S.tasks b)
+
+theorem allLinked_step (T : Torrent) (sha1 : Bytes → Bytes) (S S' : Sys) (hl : AllLinked S) (hs : SysStep T sha1 S S') :
+    AllLinked S' := by
+  cases hs with
+  | connect a t m' hnone hfresh hadd =>
+    intro b
+    by_cases hb : b = a
+    · subst hb
+      simp only [updateTask, if_true]
+      intro _
+      simp only [mstep, Out.ok.injEq] at hadd
+      obtain ⟨rfl, _⟩ := hadd
+      refine ⟨{ addr := b, pieces := List.replicate S.m.statuses.length false }, by simp [findPeer], ?_, ?_, ?_⟩
+      · simp [hfresh.2.1]
+      · simp [hfresh.2.2]
+      · intro y hy; cases hy
+    · simp only [updateTask, hb, if_false]
+      intro ha
+      obtain ⟨p, hp, h1, h2, h3⟩ := hl b ha
+      exact ⟨p, by rw [mstep_other S.m m' b _ _ (by exact fun c => hb c.symm) hadd]; exact hp, h1, h2, h3⟩
+  | own a d inp m' t' outs hstep =>
+    intro b
+    by_cases hb : b = a
+    · subst hb
+      simp only [updateTask, if_true]
+      exact linked_step T sha1 (diskOf d) b S.m m' (S.tasks b) t' inp (hl b) ⟨outs, hstep⟩
+    · simp only [updateTask, hb, if_false]
+      intro ha
+      obtain ⟨p, hp, h1, h2, h3⟩ := hl b ha
+      exact ⟨p, by rw [lstep_other T sha1 (diskOf d) a b S.m m' _ _ inp outs (fun c => hb c.symm) hstep]; exact hp, h1, h2, h3⟩
+
+/-- **In every reachable state of the whole client** — any number of connections, any interleaving of their steps, any
+    inputs, every outcome of the chooser — the manager's record of every live connection mirrors that connection's task:
+    `rx` is the piece the task is fetching, `choked` its choke flag, and the fetched piece is the assigned one. -/
+theorem allLinked_reach (T : Torrent) (sha1 : Bytes → Bytes) (S : Sys) (h : SysReach T sha1 S) : AllLinked S := by
+  induction h with
+  | init n dead hd => intro b ha; rw [hd b] at ha; cases ha
+  | step S S' _ hs ih => exact allLinked_step T sha1 S S' ih hs
 
 end Rdest.Swarm.Loop
